@@ -20,6 +20,12 @@ const CONTEXTS: &[(&str, &str, &str, &str)] = &[
     ("custom-property", ".a{--p:", " ", "}"),
     ("selector-function", ":nth-child(", "),:nth-child(", "){k:v}"),
     ("keyframes", "@keyframes n{from{k:", " ", "}}"),
+    // declarations directly inside at-rules that hold declarations, and inside their nested margin rules
+    ("page", "@page{k:", " ", "}"),
+    ("page-selector", "@media print{@page :first{k:", " ", "}}"),
+    ("page-margin", "@page{@top-left{k:", " ", "}}"),
+    ("font-face", "@font-face{k:", " ", "}"),
+    ("nested-declaration", "@layer x{@media (a:b){.c{k:", " ", "}}}"),
 ];
 
 const UNITS: &[&str] = &["", "px", "%", "rpx", "vw", "em", "s", "RPX", "rpxx", "xrpx"];
